@@ -9,6 +9,7 @@
 //! datagrams a conforming RFC sender may emit), so a single replayed op line re-fires it.
 //! Oracle classes: `C04:panic-<file>:<line>` (panic on untrusted input), everything else `C06:...`.
 mod generator;
+mod rewidth;
 mod rfcdec;
 
 use flute::core::alc::{get_sender_current_time, parse_alc_pkt, parse_payload_id};
@@ -996,6 +997,12 @@ impl Engine for WireEngine {
             "ntp" => self.op_ntp(a, o),
             "untp" => self.op_untp(a, o),
             "rfc" if a.len() == 1 => rd::unhex(a[0]).map(|d| rd::show_decode(&d)),
+            // independent decoder + encoder only (model-vs-rfcdec correspondence, no oracle)
+            "rewidth" if a.len() == 5 => (|| {
+                let d = rd::unhex(a[0])?;
+                let w: Vec<u64> = a[1..].iter().map(|x| nat(x).map(|v| v.min(u64::MAX as u128) as u64)).collect::<Option<_>>()?;
+                Some(rd::rewidth(&d, w[0], w[1], w[2], w[3]).map_or("ERR".to_string(), |r| format!("ok {}", hex(&r))))
+            })(),
             _ => None,
         };
         r.unwrap_or_else(|| "bad-op".to_string())
